@@ -296,8 +296,8 @@ def loop_units(n):
 
     def nreplay(inputs, ob):
         return False, 'inductive-step obligation of the region loop; replay through the unrolled unit (regions=2)'
-    out.append(Unit('C14/loop:translate_address_p/head', ['C14'], head, nreplay, {'contracts': {}}, meta={'function': '%s.ArmV6.translate_address_p' % A.__module__}))
-    out.append(Unit('C14/loop:translate_address_p/step', ['C14'], step, nreplay, {'contracts': {}}, meta={'function': '%s.ArmV6.translate_address_p' % A.__module__}))
+    out.append(Unit('C14/loop:translate_address_p/head', ['C14'], head, nreplay, {'contracts': {}}, meta={'function': '%s.ArmV6.translate_address_p' % A.__module__, 'inductive': True}))
+    out.append(Unit('C14/loop:translate_address_p/step', ['C14'], step, nreplay, {'contracts': {}}, meta={'function': '%s.ArmV6.translate_address_p' % A.__module__, 'inductive': True}))
     return out
 
 
